@@ -370,6 +370,14 @@ def gen_rel(rng, shape):
         # absolute values are convex on the small side of <= (large side of >=)
         small = (i == 0) if op == "<=" else (i == n - 1)
         sides.append(gen_side(rng, vs, 1, absok=small or rng.random() < 0.15, budget=budget))
+    if rng.random() < 0.2:
+        # a factor that is exactly ZERO (written 0, or as constant arithmetic that evaluates to it) in front of a variable, a group or an
+        # absolute value: the term is there and contributes nothing
+        z = rng.random()
+        item = ({"t": "var", "k": 0, "n": rng.choice(vs)} if z < 0.4 else
+                {"t": "paren", "k": 0, "items": gen_lin(rng, vs, 0, 2)} if z < 0.7 else
+                {"t": "abs", "k": 0, "items": gen_lin(rng, vs, 0, 1)})
+        sides[0 if op == "<=" else n - 1].insert(rng.randint(0, 1), item)
     return {"op": op, "sides": sides}
 
 
